@@ -53,7 +53,8 @@ def gen_case(rng, cid, two, per):
         for s in fr.func_defs():
             cmds.append(['evalstr', '111', s])
         if not two:
-            cmds.append(['evalstr', '111', '(defsig vs (+ %s 1))' % fr.sig()])
+            vs_sig = fr.sig()
+            cmds.append(['evalstr', '111', '(defsig vs (+ %s 1))' % vs_sig])
             cmds.append(['evalstr', '111', '(defsig vn (reval %s 1))' % fr.sig()])
             fr.vsigs = ['vs', 'vn']
     cmds.append(['evalstr', '111', '(define acc (list))'])
@@ -99,6 +100,13 @@ def gen_case(rng, cid, two, per):
             cmds.append(['evalstr', '111', f'(step {t} {-start[t]})' if two else f'(step {-start[t]})'])
         checks.append({'kind': kind, 'base': base, 'wbase': wbase, 'steps': steps, 'refpos': refpos, 'c': c,
                        'start': [start[t] for t in tids]})
+    # conditions of known truth: an offset applied directly to INDEX, TS and a virtual signal
+    if not xz and not two:
+        n_ = infos[tids[0]]['n']
+        base = len(cmds)
+        cmds.append(['evalstr', '111', f'(list (find (= INDEX@1 (+ INDEX 1))) (count (> TS@1 TS)) (find (= vs@1 (reval (+ {vs_sig} 1) 1))) '
+                                       f'(find (= (+ INDEX@-1 1) INDEX)) INDEX)'])
+        checks.append({'kind': 'abs', 'base': base, 'n': n_, 'c': '(= INDEX@1 (+ INDEX 1))', 'start': [0]})
     # count is the length of find also when the condition mentions user variables, whatever they are called
     if not xz and not two:
         names_ = ['n', 'i', 'c', 'cnt', 'm', 'acc2', 'x', 'tmp', 'idx', 'res', 'l', 'k']
@@ -141,6 +149,15 @@ def oracle(case, impl):
     res = impl.get('results') or []
     two = len(case['tids']) > 1
     for chk in case['checks']:
+        if chk['kind'] == 'abs':
+            if len(res) <= chk['base']:
+                return f'session stopped at {res[-1:]} (offsets on INDEX / TS / a virtual signal inside scans)'
+            n_ = chk['n']
+            want = 'ok ' + lib.ser_py([list(range(n_ - 1)), n_ - 1, list(range(n_)), list(range(1, n_)), 0])      # at the last index both sides of the third are #f
+            if lib.canon(res[chk['base']]) != lib.canon(want):
+                return (f'(list (find (= INDEX@1 (+ INDEX 1))) (count (> TS@1 TS)) (find (= vs@1 body@1)) (find (= (+ INDEX@-1 1) INDEX)) INDEX) '
+                        f'on a trace of {n_} indices gives {res[chk["base"]][:300]} expected {want}')
+            continue
         if chk['kind'] == 'countvar':
             if len(res) <= chk['base']:
                 return f'session stopped at {res[-1:]} (count {chk["c"]})'
